@@ -17,8 +17,9 @@ FLAVOURS = {
     "chk-O2": {"cxx": "g++", "flags": ["-O2", "-DTETL_ENABLE_CONTRACT_CHECKS=1"]},
     "chk-asan": {"cxx": "g++", "flags": SAN + ["-DTETL_ENABLE_CONTRACT_CHECKS=1"], "run_scale": 0.35},
     # only the SAFE level defined (it must imply the plain level): cheap non-sanitizer build for the quick tier
-    "safe-O2": {"cxx": "g++", "flags": ["-O2", "-DTETL_ENABLE_CONTRACT_CHECKS_SAFE=1"], "run_scale": 0.25},
-    "safe-asan": {"cxx": "g++", "flags": SAN + ["-DTETL_ENABLE_CONTRACT_CHECKS_SAFE=1"], "run_scale": 0.35},
+    # (and a release build: NDEBUG, TETL_ASSERT compiled out - contract checks must not depend on it)
+    "safe-O2": {"cxx": "g++", "flags": ["-O2", "-DNDEBUG", "-DSIM_NO_ASSERTIONS", "-DTETL_ENABLE_CONTRACT_CHECKS_SAFE=1"], "run_scale": 0.25},
+    "safe-asan": {"cxx": "g++", "flags": SAN + ["-DNDEBUG", "-DSIM_NO_ASSERTIONS", "-DTETL_ENABLE_CONTRACT_CHECKS_SAFE=1"], "run_scale": 0.35},
     # the shipped default: no contract macros
     "off-asan": {"cxx": "g++", "flags": SAN, "run_scale": 0.35},
     "chk-O0": {"cxx": "g++", "flags": ["-O0", "-DTETL_ENABLE_CONTRACT_CHECKS=1"], "run_scale": 0.5},
